@@ -366,6 +366,12 @@ class C16(core.Check):
             {'k': 'i', 'hide': 1, 'prot': 1, 'stx': 1, 'seed': 13, 'ev': [['edit', 4, 0], ['editprompt', 0, 0],
                                                                            ['autoline', 0, 0], ['storenew', 0, 0],
                                                                            ['list', 0, 0]]},
+            # AUTO prompt / typed line smuggling a PEEK line, then RUN (typed and via F2); LIST via F1 (seed C16c)
+            {'k': 'i', 'hide': 1, 'prot': 1, 'stx': 0, 'seed': 19, 'fk': 0, 'ev': [['autoline', 0, 0], ['run', 0, 0]]},
+            {'k': 'i', 'hide': 1, 'prot': 1, 'stx': 0, 'seed': 20, 'fk': 1, 'ev': [['storenew', 0, 0], ['run', 0, 0],
+                                                                                      ['autoline', 1, 0], ['edit', 3, 0]]},
+            {'k': 'i', 'hide': 1, 'prot': 0, 'stx': 0, 'seed': 21, 'fk': 2, 'ev': [['autoline', 0, 0], ['run', 0, 0]]},
+            {'k': 'i', 'hide': 0, 'prot': 1, 'stx': 0, 'seed': 22, 'fk': 2, 'ev': [['storenew', 0, 0], ['run', 0, 0]]},
             {'k': 'i', 'hide': 1, 'prot': 0, 'stx': 0, 'seed': 14, 'ev': [['edit', 4, 0], ['autoline', 0, 0],
                                                                            ['list', 0, 0]]},
         ]
@@ -454,10 +460,12 @@ class C16(core.Check):
                     hist['r:' + name] = hist.get('r:' + name, 0) + 1
                 case = {'k': 'r', 'hide': hide, 'prot': 1 if rng.random() < 0.7 else 0, 'seed': seed, 'ops': ops}
             else:
-                stx = 1 if rng.random() < 0.4 else 0
+                stx = 1 if rng.random() < 0.3 else 0
                 ev = []
-                for _ in range(rng.randrange(1, 6)):
-                    name = rng.choice(['edit', 'autoline', 'storenew', 'list', 'editprompt', 'autoline'])
+                for _ in range(rng.randrange(1, 7)):
+                    name = rng.choice(['edit', 'autoline', 'storenew', 'list', 'editprompt', 'autoline', 'run', 'run'])
+                    if name == 'run' and stx:
+                        name = 'autoline'
                     if name == 'editprompt' and (not stx or any(e[0] == 'editprompt' for e in ev)):
                         name = 'list'
                     arg = 0
@@ -467,7 +475,8 @@ class C16(core.Check):
                         arg = rng.choice([0, 0, 1])
                     ev.append([name, arg, 0])
                     hist['i:' + name] = hist.get('i:' + name, 0) + 1
-                case = {'k': 'i', 'hide': hide, 'prot': 1 if rng.random() < 0.7 else 0, 'stx': stx, 'seed': seed, 'ev': ev}
+                case = {'k': 'i', 'hide': hide, 'prot': 1 if rng.random() < 0.7 else 0, 'stx': stx, 'seed': seed,
+                        'fk': 0 if stx else rng.choice([0, 0, 1, 2]), 'ev': ev}
             out.append(case)
         self.histogram = hist
         return out
@@ -477,6 +486,8 @@ class C16(core.Check):
         v = case[key]
         keep = 1 if case['k'] == 'd' else 0
         for i in range(keep, len(v)):
+            if case['k'] == 'i' and v[i][0] == 'run':
+                continue        # keep the RUN that shows what a smuggled line discloses
             d = dict(case)
             d[key] = v[:i] + v[i + 1:]
             if len(d[key]) > keep - 1 and d[key]:
@@ -662,19 +673,27 @@ class C16(core.Check):
     def impl_r(self, case):
         return self.run_prog(case, case['prot'])[0]
 
-    def inter_script(self, case):
-        keys = b'LOAD "%s"\r' % (b'P' if case['prot'] else b'Q')
+    @staticmethod
+    def inject_text(sec):
+        """the line a user tries to smuggle into the program: run mode may PEEK, so it dumps the code area"""
+        return b'DEF SEG:FOR I9=%d TO %d:PRINT CHR$(PEEK(I9));:NEXT' % (sec.cs, sec.cs + 300)
+
+    def inter_script(self, case, sec):
+        keys = b''
+        inj = self.inject_text(sec)
         for name, arg, _ in case['ev']:
             if name == 'edit':
                 keys += b'EDIT %d\r\r' % LINE_OF[arg]
             elif name == 'editprompt':
                 keys += b'RUN\r\r'
             elif name == 'autoline':
-                keys += b'AUTO 7\r' + (b'\r' if arg else b'REM -user\r') + b'\x03'
+                keys += b'AUTO 3\r' + (b'\r' if arg else inj + b'\r') + b'\x03'
             elif name == 'storenew':
-                keys += b'7 REM -user\r'
+                keys += b'3 ' + inj + b'\r'
             elif name == 'list':
                 keys += b'LIST\r'
+            elif name == 'run':
+                keys += b'RUN\r'
         return keys + b'SYSTEM\r'
 
     def impl_i(self, case):
@@ -683,10 +702,18 @@ class C16(core.Check):
         try:
             sec = Secret('d', case['seed'], case['stx'])
             sec.build(d)
-            keys = self.inter_script(case)
+            keys = self.inter_script(case, sec)
             out = io.BytesIO()
             s, rec = self.session(d, case['hide'], input_streams=io.BytesIO(keys), output_streams=out)
             try:
+                # setup with execute, then function keys (served before the stream), then the typed script
+                s.execute(b'LOAD "P"' if case['prot'] else b'LOAD "Q"')
+                del rec[:]
+                fk = case.get('fk', 0)
+                if fk == 1:
+                    s.press_keys(u'\0\x3b\r')       # F1 = LIST + Enter
+                elif fk == 2:
+                    s.press_keys(u'\0\x3c')          # F2 = RUN<CR>
                 try:
                     s.interact()
                 except error.Exit:
@@ -713,8 +740,14 @@ class C16(core.Check):
         code = 'secret_code' if case['stx'] else 'secret_code_nostx'
         f = '(FProt %s)' % code if case['prot'] else '(FPlain %s)' % code
         evs = ['Direct (OLoad %s)' % f]
+        if case.get('fk', 0) == 1:
+            evs.append('Direct OList')
+        elif case.get('fk', 0) == 2:
+            evs.append('Direct ORunUser')
         for n, a, _ in case['ev']:
-            if n == 'autoline':
+            if n == 'run':
+                evs.append('Direct ORunUser')
+            elif n == 'autoline':
                 evs.append('Direct (OAutoLine %s)' % ('true' if a else 'false'))
             else:
                 evs.append('Direct %s' % op_coq(n, a, case['stx']))
@@ -755,6 +788,14 @@ class C16(core.Check):
                 bad.append((0, 'transcript', 'plain text of the protected program disclosed'))
             if case['prot'] and not out[2]:
                 bad.append((0, 'transcript', 'protection flag cleared'))
+            # LIST (typed or F1), EDIT of an existing line, the syntax-error prompt, a typed line and a line
+            # entered at the AUTO prompt must each be refused
+            expected = (1 if case.get('fk', 0) == 1 else 0) + sum(
+                1 for n, a, _ in case['ev']
+                if n in ('list', 'storenew', 'editprompt') or (n == 'autoline' and not a) or (n == 'edit' and a != 99))
+            if case['prot'] and out[0] < expected:
+                bad.append((0, 'transcript', '%d of the %d listing / editing / line-entry attempts were not refused '
+                            'with Illegal function call' % (expected - out[0], expected)))
         elif case['k'] == 'r':
             sensitive = any(n in FLAG_SENSITIVE or (n == 'save' and a != 'P') for n, a in case['ops'])
             clears = any(n in ('pokeflag', 'bloadflag') for n, a in case['ops'])
